@@ -29,9 +29,9 @@ import (
 // The only package of the harness that imports zog/internals (for the pools).
 
 type c07Op struct {
-	Op   string `json:"op"`             // call | collect | gc | dirty | panic
-	I    int    `json:"i,omitempty"`    // call index
-	How  string `json:"how,omitempty"`  // collect: each | list-or-map | sanitize
+	Op   string `json:"op"`             // call | collect | gc | dirty | panic | nested
+	I    int    `json:"i,omitempty"`    // call index (panic: variant)
+	How  string `json:"how,omitempty"`  // collect: each | list-or-map | sanitize; nested: the outer execution
 	Pool string `json:"pool,omitempty"` // dirty: exec | schema | issue | list | map | path | sb | all
 }
 
@@ -200,8 +200,65 @@ func injectDirty(pool string) {
 	}
 }
 
-func panicSchemaRun() {
+// panicSchemaRun runs one execution whose user callback panics (recovered by the caller, as net/http does); the variants
+// differ in the root schema, the mode and the place the panic comes from.
+func panicSchemaRun(variant int) {
 	defer func() { recover() }()
+	boom := func(v any, ctx z.Ctx) bool { panic("user callback panics") }
+	type Addr struct {
+		Zip  string
+		City string
+	}
+	type P struct {
+		Name    string
+		Address Addr
+		Items   []Addr
+	}
+	opts := []z.ExecOption{z.WithCtxValue("k1", "from-panicking-call"), z.WithCtxValue(i18n.LangKey, "es"),
+		z.WithIssueFormatter(func(e *z.ZogIssue, c z.Ctx) { e.SetMessage("PANIC-CALL-FORMATTER") })}
+	addr := func() *z.StructSchema {
+		return z.Struct(z.Schema{"zip": z.String().Min(50).TestFunc(boom), "city": z.String().Min(50, z.Message("too short"))})
+	}
+	in := map[string]any{"name": "n", "address": map[string]any{"zip": "z", "city": "c"}, "items": []any{map[string]any{"zip": "z", "city": "c"}, map[string]any{"zip": "y", "city": "d"}}}
+	val := P{Name: "n", Address: Addr{Zip: "z", City: "c"}, Items: []Addr{{Zip: "z", City: "c"}, {Zip: "y", City: "d"}}}
+	switch variant % 8 {
+	case 1: // pointer to a struct at the root, the panic two levels down
+		var d *P
+		z.Ptr(z.Struct(z.Schema{"name": z.String().Min(50), "address": addr()})).Parse(in, &d, opts...)
+		return
+	case 2: // the same in Validate
+		d := &val
+		z.Ptr(z.Struct(z.Schema{"name": z.String().Min(50), "address": addr()})).Validate(&d, opts...)
+		return
+	case 3: // list of structs behind a pointer, the panic inside the second element
+		var d *[]Addr
+		z.Ptr(z.Slice(z.Struct(z.Schema{"zip": z.String().Min(50), "city": z.String().TestFunc(func(v any, ctx z.Ctx) bool {
+			if s, _ := v.(string); s == "d" {
+				panic("user callback panics")
+			}
+			return false
+		})}))).Parse(in["items"], &d, opts...)
+		return
+	case 4: // documented panic: the destination lacks a field the schema names, below the root
+		var d struct {
+			Name    string
+			Address struct{ Zip string }
+		}
+		z.Struct(z.Schema{"name": z.String().Min(50), "address": z.Struct(z.Schema{"zip": z.String().Min(50), "city": z.String()})}).Parse(in, &d, opts...)
+		return
+	case 5: // a PostTransform of a list element panics
+		var d []Addr
+		z.Slice(z.Struct(z.Schema{"zip": z.String(), "city": z.String()}).PostTransform(func(v any, ctx z.Ctx) error { panic("user callback panics") })).Parse(in["items"], &d, opts...)
+		return
+	case 6: // a custom schema's function panics, at the root and behind a pointer
+		var s string
+		z.CustomFunc(func(p *string, ctx z.Ctx) bool { panic("user callback panics") }).Parse("x", &s, opts...)
+		return
+	case 7: // a Preprocess function panics below a pointer root
+		var d *P
+		z.Ptr(z.Struct(z.Schema{"name": z.String().Min(50), "address": z.Struct(z.Schema{"zip": z.Preprocess(func(data string, ctx z.Ctx) (string, error) { panic("user callback panics") }, z.String()), "city": z.String().Min(50)})})).Parse(in, &d, opts...)
+		return
+	}
 	type D struct {
 		A string
 		B []string
@@ -213,6 +270,42 @@ func panicSchemaRun() {
 	})
 	s.Parse(map[string]any{"a": "x", "b": []any{"y", "z"}}, &d, z.WithCtxValue("k1", "from-panicking-call"), z.WithCtxValue(i18n.LangKey, "es"),
 		z.WithIssueFormatter(func(e *z.ZogIssue, c z.Ctx) { e.SetMessage("PANIC-CALL-FORMATTER") }))
+}
+
+// nestedRun runs inner from inside a user callback of an outer execution, two levels below the outer root.
+func nestedRun(how string, inner func()) {
+	type Addr struct{ Zip string }
+	type P struct {
+		Name    string
+		Address Addr
+	}
+	ran := false
+	cb := func(v any, ctx z.Ctx) bool {
+		if !ran {
+			ran = true
+			inner()
+		}
+		return false
+	}
+	in := map[string]any{"name": "n", "address": map[string]any{"zip": "z"}}
+	opts := []z.ExecOption{z.WithCtxValue("k2", "from-outer-call"), z.WithIssueFormatter(func(e *z.ZogIssue, c z.Ctx) { e.SetMessage("OUTER-CALL-FORMATTER") })}
+	switch how {
+	case "ptr-parse":
+		var d *P
+		z.Ptr(z.Struct(z.Schema{"name": z.String().Min(50), "address": z.Struct(z.Schema{"zip": z.String().TestFunc(cb)})})).Parse(in, &d, opts...)
+	case "ptr-validate":
+		d := &P{Name: "n", Address: Addr{Zip: "z"}}
+		z.Ptr(z.Struct(z.Schema{"name": z.String().Min(50), "address": z.Struct(z.Schema{"zip": z.String().TestFunc(cb)})})).Validate(&d, opts...)
+	case "slice-parse":
+		var d []Addr
+		z.Slice(z.Struct(z.Schema{"zip": z.String().TestFunc(cb)})).Parse([]any{map[string]any{"zip": "a"}, map[string]any{"zip": "b"}}, &d, opts...)
+	case "post":
+		var d P
+		z.Struct(z.Schema{"name": z.String(), "address": z.Struct(z.Schema{"zip": z.String()}).PostTransform(func(v any, ctx z.Ctx) error { inner(); return nil })}).Parse(in, &d, opts...)
+	default:
+		var d P
+		z.Struct(z.Schema{"name": z.String().Min(50), "address": z.Struct(z.Schema{"zip": z.String().TestFunc(cb)})}).Parse(in, &d, opts...)
+	}
 }
 
 func propC07(c c07Case) hh.Verdict {
@@ -311,8 +404,25 @@ func propC07(c c07Case) hh.Verdict {
 			injectDirty(op.Pool)
 			dirtied = true
 		case "panic":
-			panicSchemaRun()
+			panicSchemaRun(op.I)
 			leakSource = true
+		case "nested":
+			// the call is made by a user callback of another execution (a test that validates a related value with
+			// a schema of its own): it is a call like any other
+			if op.I >= len(calls) {
+				continue
+			}
+			var res *model.Result
+			nestedRun(op.How, func() { res = calls[op.I].run() })
+			if res == nil {
+				continue
+			}
+			if got := observe(res); got != expected[op.I] {
+				return hh.Fail("step %d: call #%d, made from inside a callback of another execution (%s), gives a different result than on pristine pools:\n got  %s\n want %s", step, op.I, op.How, got, expected[op.I])
+			}
+			pending[op.I] = res
+			leakSource = true
+			v.Classes = append(v.Classes, "nested-call")
 		}
 	}
 	v.Nontrivial = afterSource
@@ -424,7 +534,7 @@ func genC07(rt *rapid.T, thorough bool) c07Case {
 		nops = rapid.IntRange(6, 40).Draw(rt, "nopsT")
 	}
 	for i := 0; i < nops; i++ {
-		switch rapid.SampledFrom([]string{"call", "call", "call", "collect", "collect", "gc", "dirty", "panic", "call", "collect"}).Draw(rt, "op") {
+		switch rapid.SampledFrom([]string{"call", "call", "call", "collect", "collect", "gc", "dirty", "panic", "call", "collect", "nested", "panic"}).Draw(rt, "op") {
 		case "call":
 			c.Ops = append(c.Ops, c07Op{Op: "call", I: rapid.IntRange(0, ncalls-1).Draw(rt, "i")})
 		case "collect":
@@ -434,7 +544,9 @@ func genC07(rt *rapid.T, thorough bool) c07Case {
 		case "dirty":
 			c.Ops = append(c.Ops, c07Op{Op: "dirty", Pool: rapid.SampledFrom([]string{"exec", "schema", "issue", "list", "map", "path", "sb", "all"}).Draw(rt, "pool")})
 		case "panic":
-			c.Ops = append(c.Ops, c07Op{Op: "panic"})
+			c.Ops = append(c.Ops, c07Op{Op: "panic", I: rapid.IntRange(0, 7).Draw(rt, "pv")})
+		case "nested":
+			c.Ops = append(c.Ops, c07Op{Op: "nested", I: rapid.IntRange(0, ncalls-1).Draw(rt, "ni"), How: rapid.SampledFrom([]string{"struct-parse", "ptr-parse", "ptr-validate", "slice-parse", "post"}).Draw(rt, "nhow")})
 		}
 	}
 	return c
